@@ -84,6 +84,21 @@ def run(tier):
             for am, cur in [(0, 0)] + [(16, c) for c in range(len(u))]:
                 grp.append(st.gen_fwd_op(rng, t, inp=u, mode=0, cap=32 * len(u) + 256, argmask=am, cursor=cur))
             ops.append(grp)
+        # an embedded NUL: the text ends there, but a cursor anywhere inside the array the caller passed is a valid
+        # argument and must not change the result (seeded change C10-F), in both directions
+        for back in (False, True):
+            u, mode = gen_input(t, back)
+            u = [c for c in u if c][:10]
+            if len(u) >= 3:
+                k = rng.randint(1, len(u) - 1)
+                u = u[:k] + [0] + u[k:]
+                grp = []
+                for am, cur in [(0, 0)] + [(16, c) for c in range(len(u))]:
+                    if back:
+                        grp.append(st.gen_bwd_op(rng, t, u, mode=mode, cap=32 * len(u) + 256, argmask=am, cursor=cur))
+                    else:
+                        grp.append(st.gen_fwd_op(rng, t, inp=u, mode=mode if mode != 1 else 0, cap=32 * len(u) + 256, argmask=am, cursor=cur))
+                ops.append(grp)
         for _ in range(nt):
             for back in (False, True):
                 u, mode = gen_input(t, back)
